@@ -2265,7 +2265,8 @@ class VM:
                     poll_callback = (
                         lambda: time.monotonic() - self.start_time > self.time_limit
                     )
-                regex_internal = InternalRegExp(to_string(pattern), "", poll_callback)
+                # built like new RegExp(pattern): a malformed pattern is a SyntaxError
+                regex_internal = JSRegExp(to_string(pattern), "", poll_callback)._internal
                 is_global = False
 
             try:
@@ -2340,7 +2341,8 @@ class VM:
                     poll_callback = (
                         lambda: time.monotonic() - self.start_time > self.time_limit
                     )
-                regex_internal = InternalRegExp(to_string(pattern), "", poll_callback)
+                # built like new RegExp(pattern): a malformed pattern is a SyntaxError
+                regex_internal = JSRegExp(to_string(pattern), "", poll_callback)._internal
 
             try:
                 vm_regex = regex_internal._create_vm()
